@@ -303,7 +303,13 @@ class EarleyParser(Parser):
     def parse_prefix(self, text):
         self.table = self.chart_parse(text, self.start_symbol())
         for col in reversed(self.table):
-            states = [st for st in col.states if st.name == self.start_symbol()]
+            # Only items that span the input from its beginning count: with a recursive
+            # start symbol, the chart also contains inner start symbol items.
+            states = [
+                st
+                for st in col.states
+                if st.name == self.start_symbol() and st.s_col.index == 0
+            ]
             if states:
                 return col.index, states
         return -1, []
